@@ -875,15 +875,7 @@ impl FutWait {
     }
 
     pub fn fut_wait(&self, seq: usize, at: &AtomicUsize, wc: &AtomicUsize) -> bool {
-        if self.spin(seq, at, wc) && self.park(seq, at, wc) {
-            #[cfg(not(multiqueue2_verif))]
-            ::std::thread::sleep(::std::time::Duration::from_millis(100));
-            #[cfg(multiqueue2_verif)]
-            crate::verif_hooks::sleep(::std::time::Duration::from_millis(100));
-            true
-        } else {
-            false
-        }
+        self.spin(seq, at, wc) && self.park(seq, at, wc)
     }
 
     pub fn spin(&self, seq: usize, at: &AtomicUsize, wc: &AtomicUsize) -> bool {
